@@ -66,36 +66,50 @@ theorem C15_digest_input_layout (account secret : Bytes) (ts : Nat) :
   `Gen.digestInputs` is re-extracted on every run from the syntax of the four functions that call
   MD5 (`go/extract/digest.go`).  Evaluating the piece list is the model's digest input. -/
 
-def evalPiece (str : String → Bytes) (num : String → Nat) : Gen.Piece → Bytes
-  | .param n => str n
+/-- `arg i`: the i-th argument as octets; `num`: a numeric argument or call result; `res f k`: the k-th
+    result of the call `f()` as octets -/
+structure Args where
+  arg : Nat → Bytes
+  num : Gen.Num → Nat
+  res : String → Nat → Bytes
+
+def evalPiece (a : Args) : Gen.Piece → Bytes
+  | .arg i => a.arg i
   | .zeros n => zeros n
-  | .dec10 n => ts10 (num n)
+  | .dec10 x => ts10 (a.num x)
+  | .res f k => a.res f k
+  | .lit bs => bs
+  | .digest => []
   | .unrecognised _ => []
 
-def evalPieces (str : String → Bytes) (num : String → Nat) (ps : List Gen.Piece) : Bytes :=
-  (ps.map (evalPiece str num)).flatten
+def evalPieces (a : Args) (ps : List Gen.Piece) : Bytes :=
+  (ps.map (evalPiece a)).flatten
 
 def digestOf (name : String) : Option (List Gen.Piece) := (Gen.digestInputs.find? (·.1 == name)).map (·.2)
 
-/-- per-run obligation: what the four functions hand to MD5 -/
+/-- per-run obligation: what the four functions hand to MD5 (arguments by position, so that renaming a
+    parameter or a local, or moving the concatenation into a helper, regenerates the same list) -/
 theorem C15_digest_inputs_from_source :
-    digestOf "cmpp.GenConnectAuth" = some [.param "account", .zeros 9, .param "password", .param "timestampStr"] ∧
-    digestOf "cmpp20.NewConnect" = some [.param "account", .zeros 9, .param "passwd", .param "t"] ∧
-    digestOf "cmpp.GenConnectRespAuthISMG" = some [.param "statusBytes", .param "reqAuth", .param "password"] ∧
-    digestOf "smgp30.genAuthenticatorClient" = some [.param "clientId", .zeros 7, .param "secret", .dec10 "timestamp"] ∧
+    digestOf "cmpp.GenConnectAuth" = some [.arg 0, .zeros 9, .arg 1, .arg 2] ∧
+    digestOf "cmpp20.NewConnect" = some [.arg 0, .zeros 9, .arg 1, .res "cmpp20.now" 0] ∧
+    digestOf "cmpp.GenConnectRespAuthISMG" = some [.arg 0, .arg 1, .arg 2] ∧
+    digestOf "smgp30.genAuthenticatorClient" = some [.arg 0, .zeros 7, .arg 1, .dec10 (.arg 2)] ∧
     Gen.timestampFormat = "%010d" := by decide
 
-/-- **the source's digest inputs are the model's**: for any argument values (the CMPP helpers
-    receive the timestamp already rendered by `TimeStamp2Str`, i.e. `ts10 ts`) -/
-theorem C15_digest_input_is_source (str : String → Bytes) (num : String → Nat) :
-    (∀ ps ts, digestOf "cmpp.GenConnectAuth" = some ps → str "timestampStr" = ts10 ts →
-      evalPieces str num ps = cmppAuthInput (str "account") (str "password") ts) ∧
-    (∀ ps ts, digestOf "cmpp20.NewConnect" = some ps → str "t" = ts10 ts →
-      evalPieces str num ps = cmppAuthInput (str "account") (str "passwd") ts) ∧
+/-- **the source's digest inputs are the model's**: for any argument values.
+    `cmpp.GenConnectAuth(account, password, timestampStr)` receives the timestamp already rendered by
+    `TimeStamp2Str`, i.e. `ts10 ts`; `cmpp20.NewConnect(account, passwd, …)` takes it from the first result of
+    `now()`; `cmpp.GenConnectRespAuthISMG(statusBytes, reqAuth, password)`;
+    `smgp30.genAuthenticatorClient(clientId, secret, timestamp)` -/
+theorem C15_digest_input_is_source (a : Args) :
+    (∀ ps ts, digestOf "cmpp.GenConnectAuth" = some ps → a.arg 2 = ts10 ts →
+      evalPieces a ps = cmppAuthInput (a.arg 0) (a.arg 1) ts) ∧
+    (∀ ps ts, digestOf "cmpp20.NewConnect" = some ps → a.res "cmpp20.now" 0 = ts10 ts →
+      evalPieces a ps = cmppAuthInput (a.arg 0) (a.arg 1) ts) ∧
     (∀ ps, digestOf "cmpp.GenConnectRespAuthISMG" = some ps →
-      evalPieces str num ps = cmppRespAuthInput (str "statusBytes") (str "reqAuth") (str "password")) ∧
+      evalPieces a ps = cmppRespAuthInput (a.arg 0) (a.arg 1) (a.arg 2)) ∧
     (∀ ps, digestOf "smgp30.genAuthenticatorClient" = some ps →
-      evalPieces str num ps = smgpAuthInput (str "clientId") (str "secret") (num "timestamp")) := by
+      evalPieces a ps = smgpAuthInput (a.arg 0) (a.arg 1) (a.num (.arg 2))) := by
   obtain ⟨h1, h2, h3, h4, _⟩ := C15_digest_inputs_from_source
   refine ⟨?_, ?_, ?_, ?_⟩
   · intro ps ts hps hts
